@@ -134,25 +134,53 @@ func lsTree(dir, rev string) (map[string]string, error) {
 // log capture (zoekt reports delta fall-backs only through the std logger)
 
 type logCapture struct {
-	mu  sync.Mutex
-	buf bytes.Buffer
+	mu    sync.Mutex
+	part  []byte
+	lines []string
 }
 
 func (l *logCapture) Write(p []byte) (int, error) {
 	l.mu.Lock()
 	defer l.mu.Unlock()
-	if l.buf.Len() < 1<<20 {
-		l.buf.Write(p)
+	l.part = append(l.part, p...)
+	for {
+		i := bytes.IndexByte(l.part, '\n')
+		if i < 0 {
+			break
+		}
+		l.lines = append(l.lines, string(l.part[:i]))
+		l.part = l.part[i+1:]
+	}
+	if len(l.lines) > 20000 {
+		l.lines = l.lines[len(l.lines)-10000:]
 	}
 	return len(p), nil
 }
 
+// take returns and forgets everything captured so far.
 func (l *logCapture) take() string {
 	l.mu.Lock()
 	defer l.mu.Unlock()
-	s := l.buf.String()
-	l.buf.Reset()
+	s := strings.Join(l.lines, "\n")
+	l.lines = nil
 	return s
+}
+
+// takeMatching returns and forgets the captured lines that mention sub (workers
+// running in parallel tell their lines apart by the repository name).
+func (l *logCapture) takeMatching(sub string) string {
+	l.mu.Lock()
+	defer l.mu.Unlock()
+	var hit, rest []string
+	for _, x := range l.lines {
+		if strings.Contains(x, sub) {
+			hit = append(hit, x)
+		} else {
+			rest = append(rest, x)
+		}
+	}
+	l.lines = rest
+	return strings.Join(hit, "\n")
 }
 
 var captured = &logCapture{}
